@@ -22,7 +22,7 @@ std::string readx(int, size_t size) {
   // (VERIF_BLOCK; n itself when that is 0) so that the refill arithmetic can be decided for small blocks.
   uint8_t tmp[VERIF_URANDOM_CAP];
   uint64_t got = verif_urandom(tmp, size);
-  verif_assert(got <= sizeof(tmp));
+  if (got > sizeof(tmp)) throw std::length_error("verif_urandom block exceeds VERIF_URANDOM_CAP"); // harness bound, reported as rc -3
   return std::string(reinterpret_cast<const char*>(tmp), got);
 }
 } // namespace phosg
